@@ -83,9 +83,9 @@ import "time"
 // Round trips: Unmarshal after Marshal is the identity on every in-range value.
 // The lemma bodies call the real functions; the verifier sees only their contracts.
 
-// @ spec verifLemmaAudioLevelRoundTrip
-// @   ensures roundtrip [C17]: a.Level <= 127 ==> err == nil && result0.Level == a.Level && result0.Voice == a.Voice
-// @ end
+//@ spec verifLemmaAudioLevelRoundTrip
+//@   ensures roundtrip [C17]: a.Level <= 127 ==> err == nil && result0.Level == a.Level && result0.Voice == a.Voice
+//@ end
 func verifLemmaAudioLevelRoundTrip(a AudioLevelExtension, b AudioLevelExtension) (AudioLevelExtension, error) {
 	buf, err := a.Marshal()
 	if err != nil {
@@ -96,9 +96,9 @@ func verifLemmaAudioLevelRoundTrip(a AudioLevelExtension, b AudioLevelExtension)
 	return b, err
 }
 
-// @ spec verifLemmaTransportCCRoundTrip
-// @   ensures roundtrip [C17]: err == nil && result0.TransportSequence == a.TransportSequence
-// @ end
+//@ spec verifLemmaTransportCCRoundTrip
+//@   ensures roundtrip [C17]: err == nil && result0.TransportSequence == a.TransportSequence
+//@ end
 func verifLemmaTransportCCRoundTrip(a TransportCCExtension, b TransportCCExtension) (TransportCCExtension, error) {
 	buf, err := a.Marshal()
 	if err != nil {
@@ -109,9 +109,9 @@ func verifLemmaTransportCCRoundTrip(a TransportCCExtension, b TransportCCExtensi
 	return b, err
 }
 
-// @ spec verifLemmaPlayoutDelayRoundTrip
-// @   ensures roundtrip [C17]: a.MinDelay <= 4095 && a.MaxDelay <= 4095 ==> err == nil && result0.MinDelay == a.MinDelay && result0.MaxDelay == a.MaxDelay
-// @ end
+//@ spec verifLemmaPlayoutDelayRoundTrip
+//@   ensures roundtrip [C17]: a.MinDelay <= 4095 && a.MaxDelay <= 4095 ==> err == nil && result0.MinDelay == a.MinDelay && result0.MaxDelay == a.MaxDelay
+//@ end
 func verifLemmaPlayoutDelayRoundTrip(a PlayoutDelayExtension, b PlayoutDelayExtension) (PlayoutDelayExtension, error) {
 	buf, err := a.Marshal()
 	if err != nil {
@@ -122,9 +122,9 @@ func verifLemmaPlayoutDelayRoundTrip(a PlayoutDelayExtension, b PlayoutDelayExte
 	return b, err
 }
 
-// @ spec verifLemmaAbsSendTimeRoundTrip
-// @   ensures roundtrip [C17]: a.Timestamp < 16777216 ==> err == nil && result0.Timestamp == a.Timestamp
-// @ end
+//@ spec verifLemmaAbsSendTimeRoundTrip
+//@   ensures roundtrip [C17]: a.Timestamp < 16777216 ==> err == nil && result0.Timestamp == a.Timestamp
+//@ end
 func verifLemmaAbsSendTimeRoundTrip(a AbsSendTimeExtension, b AbsSendTimeExtension) (AbsSendTimeExtension, error) {
 	buf, err := a.Marshal()
 	if err != nil {
@@ -135,11 +135,11 @@ func verifLemmaAbsSendTimeRoundTrip(a AbsSendTimeExtension, b AbsSendTimeExtensi
 	return b, err
 }
 
-// @ spec verifLemmaAbsCaptureTimeRoundTrip
-// @   ensures roundtrip [C17]: err == nil && result0.Timestamp == a.Timestamp
-// @   ensures offset_absent [C17]: a.EstimatedCaptureClockOffset == nil ==> result0.EstimatedCaptureClockOffset == nil
-// @   ensures offset_present [C17]: a.EstimatedCaptureClockOffset != nil ==> result0.EstimatedCaptureClockOffset != nil && *result0.EstimatedCaptureClockOffset == *a.EstimatedCaptureClockOffset
-// @ end
+//@ spec verifLemmaAbsCaptureTimeRoundTrip
+//@   ensures roundtrip [C17]: err == nil && result0.Timestamp == a.Timestamp
+//@   ensures offset_absent [C17]: a.EstimatedCaptureClockOffset == nil ==> result0.EstimatedCaptureClockOffset == nil
+//@   ensures offset_present [C17]: a.EstimatedCaptureClockOffset != nil ==> result0.EstimatedCaptureClockOffset != nil && *result0.EstimatedCaptureClockOffset == *a.EstimatedCaptureClockOffset
+//@ end
 func verifLemmaAbsCaptureTimeRoundTrip(a AbsCaptureTimeExtension, b AbsCaptureTimeExtension) (AbsCaptureTimeExtension, error) {
 	buf, err := a.Marshal()
 	if err != nil {
@@ -190,10 +190,10 @@ func verifLemmaAbsCaptureTimeRoundTrip(a AbsCaptureTimeExtension, b AbsCaptureTi
 //@ end
 
 // 1970-01-01 .. end of NTP era 0 (2036-02-07): 0 <= unixnano < (2^32 - 2208988800) * 10^9
-// @ spec verifLemmaCaptureTimeRoundTrip
-// @   requires 0 <= unixnano(t) && unixnano(t) < (4294967296 - 2208988800) * 1000000000
-// @   ensures within_1ns [C18]: unixnano(t) - 1 <= unixnano(result0) && unixnano(result0) <= unixnano(t)
-// @ end
+//@ spec verifLemmaCaptureTimeRoundTrip
+//@   requires 0 <= unixnano(t) && unixnano(t) < (4294967296 - 2208988800) * 1000000000
+//@   ensures within_1ns [C18]: unixnano(t) - 1 <= unixnano(result0) && unixnano(result0) <= unixnano(t)
+//@ end
 func verifLemmaCaptureTimeRoundTrip(t time.Time) time.Time {
 	return NewAbsCaptureTimeExtension(t).CaptureTime()
 }
@@ -214,12 +214,12 @@ func verifLemmaCaptureTimeRoundTrip(t time.Time) time.Time {
 //@ end
 
 // Capture clock offset: a duration of magnitude below 2^31 s comes back within 1 ns, sign included.
-// @ spec verifLemmaClockOffsetRoundTrip
-// @   requires 0 <= unixnano(t)
-// @   requires -2147483648 * 1000000000 < int(d) && int(d) < 2147483648 * 1000000000
-// @   ensures within_1ns [C18]: result0 != nil && int(d) - 1 <= int(*result0) && int(*result0) <= int(d) + 1
-// @   ensures sign [C18]: result0 != nil && (int(d) >= 2 ==> int(*result0) > 0) && (int(d) <= -2 ==> int(*result0) < 0)
-// @ end
+//@ spec verifLemmaClockOffsetRoundTrip
+//@   requires 0 <= unixnano(t)
+//@   requires -2147483648 * 1000000000 < int(d) && int(d) < 2147483648 * 1000000000
+//@   ensures within_1ns [C18]: result0 != nil && int(d) - 1 <= int(*result0) && int(*result0) <= int(d) + 1
+//@   ensures sign [C18]: result0 != nil && (int(d) >= 2 ==> int(*result0) > 0) && (int(d) <= -2 ==> int(*result0) < 0)
+//@ end
 func verifLemmaClockOffsetRoundTrip(t time.Time, d time.Duration) *time.Duration {
 	return NewAbsCaptureTimeExtensionWithCaptureClockOffset(t, d).EstimatedCaptureClockOffsetDuration()
 }
@@ -227,15 +227,15 @@ func verifLemmaClockOffsetRoundTrip(t time.Time, d time.Duration) *time.Duration
 // abs-send-time: 24 bits of 6.18 fixed point; the estimate recovers the send
 // instant to within the 2^-18 s (3814.7 ns) resolution of the field plus the
 // 1 ns of the NTP conversion, across 64 s wraps.
-// @ spec NewAbsSendTimeExtension
-// @   requires 0 <= unixnano(sendTime)
-// @   ensures def [C18]: result0 != nil && fresh(result0) && int(result0.Timestamp) == ntpOf(unixnano(sendTime)) / 16384
-// @ end
-// @ spec verifLemmaEstimate
-// @   requires 0 <= unixnano(send) && unixnano(send) <= unixnano(receive) && unixnano(receive) < (4294967296 - 2208988800) * 1000000000
-// @   requires unixnano(receive) - unixnano(send) < 64 * 1000000000 - 3815
-// @   ensures within_resolution [C18]: unixnano(send) - 3816 <= unixnano(result0) && unixnano(result0) <= unixnano(send)
-// @ end
+//@ spec NewAbsSendTimeExtension
+//@   requires 0 <= unixnano(sendTime)
+//@   ensures def [C18]: result0 != nil && fresh(result0) && int(result0.Timestamp) == ntpOf(unixnano(sendTime)) / 16384
+//@ end
+//@ spec verifLemmaEstimate
+//@   requires 0 <= unixnano(send) && unixnano(send) <= unixnano(receive) && unixnano(receive) < (4294967296 - 2208988800) * 1000000000
+//@   requires unixnano(receive) - unixnano(send) < 64 * 1000000000 - 3815
+//@   ensures within_resolution [C18]: unixnano(send) - 3816 <= unixnano(result0) && unixnano(result0) <= unixnano(send)
+//@ end
 func verifLemmaEstimate(send, receive time.Time) time.Time {
 	return NewAbsSendTimeExtension(send).Estimate(receive)
 }
@@ -284,10 +284,10 @@ func verifLemmaEstimate(send, receive time.Time) time.Time {
 
 // A fixed sequencer's first value is its start value; rollover count starts at
 // 0 (1 if the start value itself is 0, which counts as a handed-out 0).
-// @ spec verifLemmaFixedSequencerFirst
-// @   ensures first [C07]: result0 == s
-// @   ensures roc [C07]: int(result1) == ite(s == 0, 1, 0)
-// @ end
+//@ spec verifLemmaFixedSequencerFirst
+//@   ensures first [C07]: result0 == s
+//@   ensures roc [C07]: int(result1) == ite(s == 0, 1, 0)
+//@ end
 func verifLemmaFixedSequencerFirst(s uint16) (uint16, uint64) {
 	seq := NewFixedSequencer(s)
 	v := seq.NextSequenceNumber()
@@ -296,21 +296,21 @@ func verifLemmaFixedSequencerFirst(s uint16) (uint16, uint64) {
 }
 
 // A random sequencer starts below 2^15.
-// @ spec verifLemmaRandomSequencerFirst
-// @   ensures below_half [C07]: result0 < 32768
-// @ end
+//@ spec verifLemmaRandomSequencerFirst
+//@   ensures below_half [C07]: result0 < 32768
+//@ end
 func verifLemmaRandomSequencerFirst() uint16 {
 	return NewRandomSequencer().NextSequenceNumber()
 }
 
 // Two consecutive values differ by one modulo 2^16 and the extended counter grows.
-// @ spec verifLemmaSequencerConsecutive
-// @   requires s.rollOverCount < 18446744073709551614
-// @   modifies s.*
-// @   ensures consecutive [C07]: int(result1) == (int(result0) + 1) % 65536
-// @   ensures wrap [C07]: result0 == 65535 ==> result1 == 0
-// @   ensures roc_counts_zeros [C07]: int(s.rollOverCount) == old(int(s.rollOverCount)) + bv(result0 == 0) + bv(result1 == 0)
-// @ end
+//@ spec verifLemmaSequencerConsecutive
+//@   requires s.rollOverCount < 18446744073709551614
+//@   modifies s.*
+//@   ensures consecutive [C07]: int(result1) == (int(result0) + 1) % 65536
+//@   ensures wrap [C07]: result0 == 65535 ==> result1 == 0
+//@   ensures roc_counts_zeros [C07]: int(s.rollOverCount) == old(int(s.rollOverCount)) + bv(result0 == 0) + bv(result1 == 0)
+//@ end
 func verifLemmaSequencerConsecutive(s *sequencer) (uint16, uint16) {
 	a := s.NextSequenceNumber()
 	b := s.NextSequenceNumber()
